@@ -49,7 +49,8 @@ class _Probe(torch.autograd.Function):
 
 
 def _softplus(x):
-    return torch.nn.functional.softplus(x, beta=1.0, threshold=1e9)
+    # torch's default: linear above the threshold of 20 (log(1+exp(x)) would overflow in float32 from x~88)
+    return torch.nn.functional.softplus(x, beta=1.0, threshold=20.0)
 
 
 _UNARY = {
